@@ -212,7 +212,7 @@ class SupSelChoiceOptionMapping(SupChoiceMapping):
                     self, sup_dsg, src_dsg, f'Could not resolve {mapping!r}: could not determine which option node '
                                             f'was selected ({src_selected_opt_nodes!r})')
 
-            mapping_ctx = {node.str_context(): sup_node for node, sup_node in mapping.items()}
+            mapping_ctx = {node.str_context(): sup_node for node, sup_node in mapping.items() if node is not None}
             sup_tgt_option_node = mapping_ctx[list(src_selected_opt_nodes)[0].str_context()]
 
         # Apply selection choice node
